@@ -64,6 +64,7 @@ class FSRunner:
     def histories(self, inst, hists, faults=None, judge=None):
         chk = self.chk
         exp = fc.expected(inst)
+        for h in hists: h.exp = exp
         done = pmap(fs.run_history, hists, workers=12)
         acc = [h for h in done if getattr(h, "accept", True)]
         res = fs.validate_histories(inst, exp, acc, faults=faults) if acc else None
@@ -267,6 +268,7 @@ def run_fault_cases(R, insts, kinds, chk):
     def one(c):
         i2, key, kind, h = c
         exp = fc.expected({k: v for k, v in i2.items() if k != "faults"})
+        h.exp = exp
         fs.run_history(h)
         res = None
         parallel = len([t for t in exp["tasks"] if not any(set(t["ins"]) & set(u["outs"]) for u in exp["tasks"])]) > 1 and i2.get("max", 1) > 1
